@@ -395,7 +395,19 @@ pub fn c10_build(raw: &Raw, _tier: Tier, _sched: bool) -> Scenario {
         for i in 0..lead {
             b.s.threads[t].push(Op::Stall(stall_of(knob(raw, 9).wrapping_add(i as u16 * 3))));
         }
-        if term == 1 || term == 3 {
+        if term == 1 && (knob(raw, 8) >> 4) % 2 == 0 {
+            // unsubscribe(C) issued by D1 from inside its callback, i.e. in the middle of a
+            // notification round in which C still comes later: C must neither be called in the
+            // reducer context nor after that unsubscribe() has returned
+            let acts: Vec<ActId> = b.s.threads.iter().flatten().filter_map(|o| match o { Op::Dispatch { act, .. } => Some(*act), _ => None }).collect();
+            if !acts.is_empty() && !gated {
+                let trigger = acts[pick(knob(raw, 9), acts.len())];
+                b.sub_mut(d1).on_notify_ops.push((trigger, vec![Op::Unsubscribe { store: s, sub: c }]));
+            } else {
+                b.s.threads[t].push(Op::Unsubscribe { store: s, sub: c });
+            }
+            b.s.threads[t].push(Op::Stall(stall_of(knob(raw, 9))));
+        } else if term == 1 || term == 3 {
             b.s.threads[t].push(Op::Unsubscribe { store: s, sub: c });
             b.s.threads[t].push(Op::Unsubscribe { store: s, sub: c });
         } else {
@@ -416,6 +428,16 @@ pub fn c10_build(raw: &Raw, _tier: Tier, _sched: bool) -> Scenario {
             }
             b.s.threads[t2].push(Op::Stop { store: s, via_trait: false });
         }
+    }
+    // a third of the cases: one more channeled subscriber is attached by a client thread at a
+    // generated moment - possibly while a stop() is under way on another thread
+    if knob(raw, 6) % 3 == 1 {
+        let lt = b.thread();
+        for i in 0..pick(knob(raw, 10), 5) {
+            b.s.threads[lt].push(Op::Stall(stall_of(knob(raw, 11).wrapping_add(i as u16 * 7))));
+        }
+        let c3 = b.sub(SubKind::Channeled { cap: 1 + (knob(raw, 12) % 3) as usize, pol: POLS[pick(knob(raw, 12).rotate_left(5), 3)], default_ctor: knob(raw, 12) % 7 == 0 });
+        b.s.threads[lt].push(Op::Subscribe { store: s, sub: c3 });
     }
     if let (Some(g), Some(dg)) = (g, done) {
         let ct = b.thread();
@@ -507,6 +529,19 @@ pub fn c10_check(scn: &Scenario, h: &History) -> Outcome {
             if matches!(&r.ev, Ev::NotOut { sub, .. } if *sub == c) && pos > barrier {
                 out.viol(format!("channeled subscriber {} was still inside on_notify at @{} after {} had returned at @{}", c, pos, what, barrier));
             }
+        }
+    }
+    // the same two barriers hold for every other channeled subscriber, whenever it was attached
+    for (other, oiv) in sd.subs.iter().filter(|(x, _)| *x != c && matches!(d.sub_kind(*x), SubKind::Channeled { .. })) {
+        for (barrier, what) in [(oiv.unsub_ret, "unsubscribe()"), (sd.first_stop_ret, "stop()")] {
+            let Some(barrier) = barrier else { continue };
+            // (a subscription made after the stop returned is released at once and never called)
+            if let Some((pos, _)) = h.recs.iter().enumerate().find(|(pos, r)| *pos > barrier && matches!(&r.ev, Ev::NotIn { sub, .. } | Ev::NotOut { sub, .. } if sub == other)) {
+                out.viol(format!("channeled subscriber {} was called at @{} after {} had returned at @{}", other, pos, what, barrier));
+            }
+        }
+        if oiv.add_inv.map(|x| x > 0).unwrap_or(false) {
+            out.class("channeled-subscriber-attached-mid-run");
         }
     }
     // in-order subsequence of the direct stream (all policies), with identical (state, action) pairs
@@ -615,7 +650,44 @@ pub static C10: Profile = Profile {
 
 // =============================================================================== C14
 
+/// An iterator obtained from a store that has already shut down - without ever having had a
+/// subscriber: it has nothing to yield and must say so (None, again and again) instead of waiting.
+fn c14_late_iterator(raw: &Raw) -> Scenario {
+    let mut b = ScnB::new();
+    let s = b.store("c14", CAPS[pick(knob(raw, 0), CAPS.len())], POLS_MOSTLY_BLOCK[pick(knob(raw, 12), POLS_MOSTLY_BLOCK.len())], CTORS[pick(knob(raw, 1), 3)].clone());
+    let reds = vec![b.reducer(s)];
+    let th = b.thread();
+    for r in raw.threads.first().map(|v| v.as_slice()).unwrap_or(&[]).iter().take(4) {
+        let o = ActOpts { reducers: &reds, middlewares: &[], effects: false, followups: false, veto: false, keeps: (r.k >> 8) % 4 == 0, panics: false };
+        let a = scripted_action(&mut b, s, r, &o);
+        b.s.threads[th].push(Op::Dispatch { act: a, via: via_of(r) });
+    }
+    // close, or stop, or both; then - on the same or another thread - the late iterator
+    match knob(raw, 2) % 3 {
+        0 => b.s.threads[th].push(Op::Close { store: s }),
+        1 => b.s.threads[th].push(Op::Stop { store: s, via_trait: false }),
+        _ => {
+            b.s.threads[th].push(Op::Close { store: s });
+            b.s.threads[th].push(Op::Stop { store: s, via_trait: false });
+        }
+    }
+    let ready = b.gate();
+    b.s.threads[th].push(Op::GateSignal { gate: ready });
+    let ct = if knob(raw, 3) % 2 == 0 { th } else { b.thread() };
+    b.s.threads[ct].push(Op::GateAwait { gate: ready, entered: 1 });
+    for i in 0..pick(knob(raw, 4), 3) {
+        b.s.threads[ct].push(Op::Stall(stall_of(knob(raw, 5).wrapping_add(i as u16))));
+    }
+    let it = b.iter_id();
+    b.s.threads[ct].push(Op::Iter { store: s, it, consume: Consume::UntilNone, ready: None });
+    b.s.epilogue.push(Op::Stop { store: s, via_trait: false });
+    b.finish()
+}
+
 pub fn c14_build(raw: &Raw, _tier: Tier, _sched: bool) -> Scenario {
+    if (knob(raw, 0) >> 4) % 8 == 0 {
+        return c14_late_iterator(raw);
+    }
     let mut b = ScnB::new();
     let cap = CAPS[pick(knob(raw, 0), CAPS.len())];
     // a third of the stores discard on a full queue: what the iterator must yield is still the
@@ -698,6 +770,7 @@ pub fn c14_check(scn: &Scenario, h: &History) -> Outcome {
     let runs = &p.runs[s];
     let sd_stream = stream_of(h, 0);
     let dacts: Vec<(ActId, St)> = sd_stream.iter().map(|x| (x.0, x.1)).collect();
+    let has_d = scn.prelude.iter().any(|o| matches!(o, Op::Subscribe { sub: 0, .. }));
     // the store keeps processing whatever the consumers do
     if scn.stores[s].policy == Pol::Block {
         for x in d.disps.iter().filter(|x| x.ok == Some(true)) {
@@ -726,6 +799,27 @@ pub fn c14_check(scn: &Scenario, h: &History) -> Outcome {
             _ => None,
         }).collect();
         let got: Vec<(ActId, St)> = items.iter().map(|x| (x.0, x.1)).collect();
+        if !has_d {
+            // the late-iterator scenario has no reference subscriber: whatever the backlog still
+            // yields, the iterator must end (None, thrice) and yield nothing afterwards
+            out.class("late-iterator-on-a-subscriberless-store");
+            out.nontrivial = true;
+            if nones.len() != 3 {
+                out.viol(format!("iterator {} (created after the store was closed / stopped): next() returned None {} times out of 3 calls after the end", it, nones.len()));
+            }
+            if let (Some((_, np)), Some(last)) = (nones.first(), items.last()) {
+                if *np < last.2 {
+                    out.viol(format!("iterator {} yielded an item after returning None", it));
+                }
+            }
+            let mut seen = HashSet::new();
+            for (a, _, _) in &items {
+                if !seen.insert(*a) {
+                    out.viol(format!("iterator {} yielded action {} twice", it, a));
+                }
+            }
+            continue;
+        }
         // contiguous window of the direct subscriber's stream, no gaps, no repeats
         let start = got.first().and_then(|f| dacts.iter().position(|y| y == f));
         if let Some(f) = got.first() {
@@ -794,7 +888,7 @@ pub fn c14_check(scn: &Scenario, h: &History) -> Outcome {
 
 pub static C14: Profile = Profile {
     id: "C14",
-    rule: "proptest scenarios: a store with any policy (two thirds BlockOnFull), a whole-run direct subscriber D registered first, 0-2 actions dispatched before the iterator exists, 1-3 producers (half of the cases wait until iter() has returned), a consumer thread that creates the iterator and either runs it to None (+ two more next()) or takes k items and drops it, sometimes a second dropping consumer, and a stopper thread that stops the store at a generated point. Oracle O-ITER: items are a gap-free, repeat-free window of D's (state,action) stream, contain every notifying action dispatched after iter() returned, reach the end of D's stream when run to None, None thrice; after a drop the store keeps processing and stop() completes (deadlock = violation). Non-trivial = the consumer received >= 2 items while producers were still dispatching and the stop (or drop) came mid-stream; distinct by scenario hash.",
+    rule: "proptest scenarios: a store with any policy (two thirds BlockOnFull), a whole-run direct subscriber D registered first, 0-2 actions dispatched before the iterator exists, 1-3 producers (half of the cases wait until iter() has returned), a consumer thread that creates the iterator and either runs it to None (+ two more next()) or takes k items and drops it, sometimes a second dropping consumer, and a stopper thread that stops the store at a generated point; an eighth of the cases instead obtain the iterator from a store that never had a subscriber and has already been closed / stopped. Oracle O-ITER: items are a gap-free, repeat-free window of D's (state,action) stream, contain every notifying action dispatched after iter() returned, reach the end of D's stream when run to None, None thrice; after a drop the store keeps processing and stop() completes (deadlock = violation). Non-trivial = the consumer received >= 2 items while producers were still dispatching and the stop (or drop) came mid-stream; distinct by scenario hash.",
     raw: raw3,
     build: c14_build,
     check: c14_check,
